@@ -269,4 +269,12 @@ def monStep (s : St) (op : Op) (a : Ans) : St × Verdict :=
       | none => judgeSend s len shown fc sa
     | _ => (s, some "event loop failed or unreadable answer")
 
+/-- a whole case: every (operation, implementation's answer) pair, in order, is accepted -/
+def acceptsRun (s : St) : List (Op × Ans) → Bool
+  | [] => true
+  | (op, a) :: rest =>
+    match monStep s op a with
+    | (s', none) => acceptsRun s' rest
+    | (_, some _) => false
+
 end Percival.Spec.NetbufMon
